@@ -1,7 +1,7 @@
 SPECIFICATION Spec
-CONSTANTS Box = 10
+CONSTANTS Box = 7
  Dense = 1
- Quota = 4
+ Quota = 3
 INVARIANT TilingOK
 INVARIANT Emit
 CHECK_DEADLOCK FALSE
